@@ -1,6 +1,6 @@
 //! Kani harnesses over the real `ast-grep-config` + `ast-grep-core` (path dependencies on
 //! /repo) with the tree-sitter facade replaced by `mock-ts`.  See /verif/DESIGN.md.
-#![allow(dead_code, unused_imports, clippy::all)]
+#![allow(dead_code, unused_imports, unconditional_panic, clippy::all)]
 
 pub use core_h::common;
 
